@@ -361,6 +361,57 @@ def build(run):
             return bounded_ok(len(hist), f"{len(hist)} counter histories incl. starts at 9, 99 and mixed offsets", sample=f"{bname}: one signature under all histories")
         run.add(f"history/{bname}", hob, kind="bounded")
 
+    # ---------------------------------------------------------------- histories given as prior object creations in a fresh process
+    # (counters are class attributes created on first use: which class creates the counter, and which classes share it, is part of
+    # the history).  Forms mixing plain coefficients / constants with instances of user subclasses.
+    def creations():
+        import itertools as _it
+        import ufl.utils.counted as _cnt
+
+        def fresh():
+            seen, todo = set(), [_cnt.Counted]
+            while todo:
+                c = todo.pop()
+                for sub in c.__subclasses__():
+                    if sub not in seen:
+                        seen.add(sub)
+                        todo.append(sub)
+            for c in seen:
+                if "_counter" in c.__dict__:
+                    try:
+                        delattr(c, "_counter")
+                    except AttributeError:
+                        pass
+            ufl.Mesh._ufl_global_id = 0
+
+        def build(prior):
+            fresh()
+            m0 = S.new_mesh()
+            P1, P2 = ufl.FunctionSpace(m0, S.L(ufl.triangle, 1)), ufl.FunctionSpace(m0, S.L(ufl.triangle, 2))
+            for kind in prior:
+                {"c": lambda: ufl.Coefficient(P1), "u": lambda: S.UserCoefficient(P2), "k": lambda: ufl.Constant(m0), "K": lambda: S.UserConstant(m0),
+                 "i": lambda: ufl.Index()}[kind]()
+            fresh_first = prior[:0]
+            f, g = ufl.Coefficient(P1), S.UserCoefficient(P2)
+            c, k = ufl.Constant(m0), S.UserConstant(m0)
+            v = ufl.TestFunction(P1)
+            return ((f * g + c * k) * v * ufl.dx + g * g * f * c * v * ufl.ds).signature()
+        priors = ["", "c", "u", "uuuuu", "cccuu", "ucucuc", "kKKK", "Kkkkk", "ccccccccccu", "uuuuuuuuuuuc", "iiii", "cuKkic" * 3]
+        sigs = {}
+        for pr in priors:
+            try:
+                sigs[pr] = build(pr)
+            except Exception as ex:  # noqa: BLE001
+                sigs[pr] = f"<no signature: {type(ex).__name__}: {ex}>"
+        base = sigs[""]
+        for pr, sg in sigs.items():
+            if sg != base:
+                return violated(f"the form (f*g + c*k)*v*dx + g*g*f*c*v*ds (g, k of user subclasses) has a different signature after the prior creations "
+                                f"'{pr}' (c/u: plain / user coefficient, k/K: plain / user constant, i: index) than in a fresh process",
+                                replay={"prior": pr, "sig_fresh": base, "sig": sg}, reproduced=True, backend="exec")
+        return bounded_ok(len(priors), f"{len(priors)} prior-creation histories from a fresh counter state", sample="one signature after all prior creations")
+    run.add("history/prior-creations(user subclasses of Coefficient and Constant)", creations, kind="bounded")
+
     # ---------------------------------------------------------------- hash seed / process independence
     def seeds():
         nseeds = 4 if run.tier == "quick" else 16
